@@ -97,6 +97,7 @@ def run(S):
     shared.writers_dirty(S)
     shared.structure(S)
     shared.names(S, ('yakushima::scan',))
+    shared.gc_safety(S)
 
 
 SHRINKS = ('erase', 'resize', 'pop_back', 'clear')
